@@ -22,6 +22,14 @@ theorem stored_apply_data (db : DB) (w : Wr) (hw : DataWrite w) (id : Nat) (h : 
     | exact ⟨h1, h2, upd_true_mono _ _ _ h3⟩
     | exact ⟨h1, h2, h3⟩
 
+theorem hasBlk_apply_data (db : DB) (w : Wr) (hw : DataWrite w) (id : Nat) (h : HasBlk db id) : HasBlk (db.apply w) id := by
+  obtain ⟨h1, h2⟩ := h
+  cases w <;> simp only [DataWrite] at hw <;> simp only [DB.apply] <;>
+    first
+    | exact ⟨upd_true_mono _ _ _ h1, h2⟩
+    | exact ⟨h1, upd_true_mono _ _ _ h2⟩
+    | exact ⟨h1, h2⟩
+
 theorem data_fields (db : DB) (w : Wr) (hw : DataWrite w) :
     (db.apply w).canon = db.canon ∧ (db.apply w).look = db.look ∧ (db.apply w).headBlk = db.headBlk ∧
     (∀ r, db.st r = true → (db.apply w).st r = true) := by
@@ -37,7 +45,7 @@ theorem consistent_apply_data (W : World) (db : DB) (w : Wr) (hw : DataWrite w) 
     hs _ h.state, ?_⟩
   · intro n hn
     obtain ⟨x, h1, h2, h3, h4⟩ := h.index.chain n hn
-    exact ⟨x, by rw [hc]; exact h1, stored_apply_data db w hw _ h2, h3, by rw [hc]; exact h4⟩
+    exact ⟨x, by rw [hc]; exact h1, hasBlk_apply_data db w hw _ h2, h3, by rw [hc]; exact h4⟩
   · intro t x n i ht
     rw [hl] at ht
     rw [hc]
@@ -174,17 +182,19 @@ theorem wbs_extend_consistent (W : World) (nd : Node) (id : Nat)
   obtain ⟨hc3, hl3, hk3⟩ := hfin
   have hstored : ∀ x, Stored db1 x → Stored db3 x := by
     intro x hx; unfold Stored at *; rw [hb3, hh3, hn3, hb2, hh2, hn2]; exact hx
+  have hhasblk : ∀ x, HasBlk db1 x → HasBlk db3 x := by
+    intro x hx; unfold HasBlk at *; rw [hb3, hh3, hb2, hh2]; exact hx
   have hnum_pos : 0 < (W.blk id).num := by omega
   refine ⟨⟨⟨hstored _ hst1.1, by rw [hc3, upd_same], ?_, ?_⟩, by rw [hs3, hs2]; exact hst1.2, ?_⟩, hk3⟩
   · intro n hnle
     by_cases hnn : n = (W.blk id).num
-    · refine ⟨id, by rw [hc3, hnn, upd_same], hstored _ hst1.1, hnn.symm, ?_⟩
+    · refine ⟨id, by rw [hc3, hnn, upd_same], (hstored _ hst1.1).hasBlk, hnn.symm, ?_⟩
       intro _
       rw [hc3, upd_other _ _ _ _ (by omega), hc2, hnn, hn, hp]
       simpa using h1.index.canonHead
     · have hle : n ≤ (W.blk nd.cur).num := by omega
       obtain ⟨x, hx1, hx2, hx3, hx4⟩ := h1.index.chain n hle
-      refine ⟨x, by rw [hc3, upd_other _ _ _ _ hnn, hc2]; exact hx1, hstored _ hx2, hx3, ?_⟩
+      refine ⟨x, by rw [hc3, upd_other _ _ _ _ hnn, hc2]; exact hx1, hhasblk _ hx2, hx3, ?_⟩
       intro hpos
       rw [hc3, upd_other _ _ _ _ (by omega), hc2]
       exact hx4 hpos
